@@ -676,21 +676,21 @@ class Interp:
                     return x - to_int(self.bitop(ast.BitAnd, x, t2, line))
         if name == 'and':
             for x, y in ((a, b), (b, a)):
-                ys = z3.simplify(y)
+                ys = y
                 s_ = shift_of(ys)
                 if isinstance(s_, int) and s_ > 0:
                     for w in (1, 2, 4, 8):
                         if self.ctx.provable(z3.And(ys >= 0, ys < 2 ** (s_ + w), ys % (2 ** s_) == 0), timeout=1000):
-                            return bitops.field_and(x, ys / (2 ** s_), s_, w)
+                            return bitops.field_and(x, bitops.div_pow2(ys, s_), s_, w)
         # a ^ (t * 2^s) with a small t: only one field of a changes
         if name == 'xor':
             for x, y in ((a, b), (b, a)):
-                ys = z3.simplify(y)
+                ys = y
                 s_ = shift_of(ys)
                 if isinstance(s_, int) and s_ > 0:
                     for w in (1, 2, 4, 8):
                         if self.ctx.provable(z3.And(ys >= 0, ys < 2 ** (s_ + w), ys % (2 ** s_) == 0, x >= 0), timeout=1000):
-                            return bitops.field_xor(x, ys / (2 ** s_), s_, w)
+                            return bitops.field_xor(x, bitops.div_pow2(ys, s_), s_, w)
         # rule 4: disjoint bits.  one operand is X * pow2(s) (or X * 2^c), the other in [0, 2^s)
         if name in ('or', 'xor'):
             for x, y in ((a, b), (b, a)):
